@@ -74,6 +74,22 @@ func (b *builder) ring() []vkit.P2 {
 		}
 	}
 	r := append(append(append([]vkit.P2{}, p[:pos]...), ins...), p[pos:]...)
+	switch rapid.IntRange(0, 11).Draw(b.t, "repeats") {
+	case 3:
+		// a vertex written several times in a row (a ring digitised with stops): the sequence overlaps itself there
+		i := rapid.IntRange(0, len(r)-1).Draw(b.t, "repat")
+		k := rapid.IntRange(1, 3).Draw(b.t, "repk")
+		rep := make([]vkit.P2, k)
+		for j := range rep {
+			rep[j] = r[i]
+		}
+		r = append(append(append([]vkit.P2{}, r[:i]...), rep...), r[i:]...)
+	case 7:
+		// a spike run back and forth: P Q P Q P
+		i := rapid.IntRange(0, len(r)-1).Draw(b.t, "spikeat")
+		p0, q0 := r[i], r[(i+1)%len(r)]
+		r = append(append(append([]vkit.P2{}, r[:i]...), p0, q0, p0, q0), r[i:]...)
+	}
 	return append(r, r[0])
 }
 
